@@ -85,8 +85,12 @@ def task_pairs(t):
     apply_ = m.apply
     passes = 2 if ctx == 'K3' else 1
     F = U.full
+    _decoy = sweep.Decoy(names, twin_of=m)
     for p in range(passes):
         for fu in mine:
+            _bad = _decoy.poke()
+            if _bad:
+                rec('second-manager:' + _bad, _bad, dict(kind='context', n=n, order=oi, ctx=ctx))
             u = refs[fu]
             for sym in UNARY:
                 try:
@@ -554,7 +558,7 @@ def deep_machines(tier):
     a = dict(names=('x', 'y'), max_handles=3, max_ext=1, ops=ops6, with_foa=False,
              seeds=('fresh', 'used', 'swapped', 'warm'))
     b3 = dict(names=('x', 'y', 'z'), max_handles=2, max_ext=1, ops=('and', 'xor', 'implies'),
-              with_foa=False, with_ite=False, seeds=('fresh', 'used', 'warm'))
+              with_foa=False, with_ite=False, with_twin=True, seeds=('fresh', 'used', 'warm'))
     narrow = dict(names=('x', 'y'), max_handles=2, max_ext=1, ops=('and', 'xor', 'implies'),
                   with_foa=False, with_ite=False, seeds=('fresh', 'used', 'warm'))
     big6 = dict(names=('x', 'y', 'z', 'w', 'v', 'u'), max_handles=3, max_ext=1,
